@@ -70,6 +70,10 @@ func c13ObjectProgram(rt *rapid.T) (string, []string) {
 		// property names that are canonically equivalent but differently encoded are distinct keys
 		keys = []string{"সম\u09df", "zeta", "সম\u09af\u09bc", "caf\u00e9", "k", "cafe\u0301", "ক\u09cb", "ক\u09c7\u09be"}
 	}
+	if rapid.IntRange(0, 3).Draw(rt, "prefixKeys") == 0 {
+		// names of which one is a proper prefix of another, in either script, and names differing in the last character only
+		keys = []string{"na", "n", "nam", "name", "ক", "ক১", "নাম", "নামের_তালিকা"}
+	}
 	var order []string
 	// a property name may be written more than once in one literal: every
 	// initialiser still runs, in source order, and the last one gives the value
